@@ -51,8 +51,9 @@ var c58OpName = [...]string{"Accept", "Conn.Close", "Listener.Close", "feed"}
 
 type c58In struct{ Kind, Client, Arg int }
 
-// c58Out for Accept: V=0 connection W, 1 listener-closed error, 2 transient inner error W,
-// 3 anything else.
+// c58Out for Accept: V=0 connection W, 1 an error other than a transient inner one (legal only
+// once the listener was closed), 2 transient inner error W, 3 a connection that is not a
+// wrapped harness connection.
 type c58Out struct{ V, W int }
 
 type c58Rec struct {
@@ -197,14 +198,18 @@ type c58Conn struct {
 	net.Conn // nil: only Close is ever called
 	id       int
 	in       *c58Inner
-	closes   atomic.Int32
+	closes   int // guarded by in.mu
 }
 
+// Close counts the connection as closed from the moment its first Close call starts; the
+// count and innerOpen change in one critical section, so a second, concurrent Close cannot
+// return before the first one was counted.
 func (c *c58Conn) Close() error {
-	if c.closes.Add(1) == 1 {
-		c.in.mu.Lock()
+	c.in.mu.Lock()
+	defer c.in.mu.Unlock()
+	c.closes++
+	if c.closes == 1 {
 		c.in.open--
-		c.in.mu.Unlock()
 		return nil
 	}
 	return net.ErrClosed
@@ -330,13 +335,10 @@ func (h *c58Hist) accept(client int) {
 			return c58Out{V: 0, W: fc.id}
 		}
 		var te *c58TransientErr
-		switch {
-		case errors.As(err, &te):
+		if errors.As(err, &te) {
 			return c58Out{V: 2, W: te.id}
-		case errors.Is(err, net.ErrClosed):
-			return c58Out{V: 1}
 		}
-		return c58Out{V: 3}
+		return c58Out{V: 1} // any other error: only legal once the listener was closed
 	})
 	h.inAccept.Add(-1)
 }
@@ -792,38 +794,39 @@ func c58RunPlain(h *c58Hist, n int, scripts [][]c58Step, rng *rand.Rand) {
 	if barrier {
 		close(h.startCh)
 	}
-	// The controller only keeps the history moving: when every unfinished worker sits in
-	// Accept it feeds a connection, closes one, or closes the listener. No oracle here.
-	lastOthers, lastFin := int64(-1), int32(-1)
+	// The controller only keeps the history moving (no oracle here): when every unfinished
+	// worker sits in Accept it looks at the situation and feeds the inner listener if nothing
+	// is waiting there, closes a connection if the limit is reached, or closes the listener.
 	for int(h.finished.Load()) < nworkers {
 		runtime.Gosched()
-		others, fin := h.clock.Load()-h.ctlStamps.Load(), h.finished.Load()
-		if others == lastOthers && fin == lastFin {
-			continue
-		}
 		if int(h.finished.Load()+h.inAccept.Load()) < nworkers {
 			continue
 		}
-		switch x := rng.IntN(20); {
-		case x == 0 || h.idsExhausted():
+		h.inner.mu.Lock()
+		pending := len(h.inner.q)
+		h.inner.mu.Unlock()
+		open := h.openCount()
+		switch {
+		case h.lclosed.Load():
+			// every Accept returns by itself
+		case h.idsExhausted():
 			h.closeListener(ctl)
-		case x < 8:
-			if a := h.pick(rng.IntN(64), true); a != nil {
+		case open >= n || (open > 0 && rng.IntN(8) == 0):
+			if rng.IntN(40) == 0 {
+				h.closeListener(ctl)
+			} else if a := h.pick(rng.IntN(64), true); a != nil {
 				h.closeConnTimes(ctl, a, 1+rng.IntN(4), rng.IntN(2) == 0)
-			} else {
+			}
+		case pending == 0:
+			switch x := rng.IntN(40); {
+			case x == 0:
+				h.closeListener(ctl)
+			case x < 4:
+				h.feedErr(ctl)
+			default:
 				h.feedConn(ctl)
 			}
-		case x < 9:
-			h.feedErr(ctl)
-		default:
-			h.feedConn(ctl)
-			if h.openCount() >= n {
-				if a := h.pick(rng.IntN(64), true); a != nil {
-					h.closeConnTimes(ctl, a, 1+rng.IntN(3), false)
-				}
-			}
 		}
-		lastOthers, lastFin = others, fin
 	}
 	wg.Wait()
 	h.closeListener(ctl)
@@ -867,17 +870,11 @@ func (h *c58Hist) check(mode string, st *c58Stats, aborted bool) {
 	model := c58Model(h.n)
 	res, _ := porcupine.CheckOperationsVerbose(model, ops, c58PorcupineTimeout)
 	if res == porcupine.Unknown {
-		byRet := append([]*c58Rec{}, done...)
-		sort.Slice(byRet, func(i, j int) bool { return byRet[i].Ret < byRet[j].Ret })
-		state, ok := model.Init(), true
-		for _, rec := range byRet {
-			if ok, state = model.Step(state, rec.In, rec.Out); !ok {
-				break
-			}
-		}
-		if ok {
+		// The search gave up. A linearization is a proof by itself, so look for a witness
+		// greedily and replay it through the same sequential model.
+		if c58GreedyWitness(model, done) {
 			res = porcupine.Ok
-			r.Event("porcupine_timeouts_settled_by_completion_order_witness", 1)
+			r.Event("porcupine_timeouts_settled_by_greedy_witness", 1)
 		}
 	}
 	switch res {
@@ -958,6 +955,61 @@ func (h *c58Hist) check(mode string, st *c58Stats, aborted bool) {
 		}
 		r.Sample(map[string]any{"mode": mode, "limit": h.n, "max_inner_open": maxOpen, "history_by_call_stamp": s})
 	}
+}
+
+// c58GreedyWitness builds a linearization without backtracking: among the operations that may
+// come next in real-time order (no other remaining operation returned before their call) it
+// takes the first one the model accepts, in the order: feed / Conn.Close / Accept->error
+// (they never disable anything), Accept->connection by earliest return, Listener.Close last.
+// Every step is validated by the model, so success proves linearizability; failure proves
+// nothing.
+func c58GreedyWitness(model porcupine.Model, done []*c58Rec) bool {
+	rem := append([]*c58Rec{}, done...)
+	prio := func(rec *c58Rec) int {
+		switch {
+		case rec.In.Kind == c58LClose:
+			return 3
+		case rec.In.Kind == c58Accept && rec.Out.V == 0:
+			return 2
+		case rec.In.Kind == c58Accept && rec.Out.V == 2:
+			return 1
+		}
+		return 0
+	}
+	state := model.Init()
+	for len(rem) > 0 {
+		minRet := rem[0].Ret
+		for _, rec := range rem {
+			if rec.Ret < minRet {
+				minRet = rec.Ret
+			}
+		}
+		var cand []int
+		for i, rec := range rem {
+			if rec.Call < minRet {
+				cand = append(cand, i)
+			}
+		}
+		sort.Slice(cand, func(a, b int) bool {
+			x, y := rem[cand[a]], rem[cand[b]]
+			if prio(x) != prio(y) {
+				return prio(x) < prio(y)
+			}
+			return x.Ret < y.Ret
+		})
+		picked := -1
+		for _, i := range cand {
+			if ok, next := model.Step(state, rem[i].In, rem[i].Out); ok {
+				state, picked = next, i
+				break
+			}
+		}
+		if picked < 0 {
+			return false
+		}
+		rem = append(rem[:picked], rem[picked+1:]...)
+	}
+	return true
 }
 
 // ---- generator --------------------------------------------------------------------------
